@@ -203,6 +203,71 @@ pub fn literals(rng: &mut Rng, thorough: bool) -> Vec<String> {
             v.push(halfway(x, rng));
         }
     }
+    // the overflow and underflow boundaries, for every significand length and both exponent
+    // spellings: prefixes of f64::MAX, of the smallest normal and of the smallest subnormal, nudged
+    // in the last place, with the decimal point moved so that the exponent field takes every value
+    // a fast path might be guarded on
+    const MAXD: &str = "17976931348623157081452742373170435679807056752584499659891747680315726078";
+    const MINN: &str = "22250738585072013830902327173324040642192159804623318305533274168872044348";
+    const MINS: &str = "49406564584124654417656879286822137236505980261432476442558568250067550727";
+    for (digs, mag) in [(MAXD, 308i64), (MINN, -308), (MINS, -324)] {
+        for n in 1..=24usize {
+            let pre = &digs[..n];
+            let mut variants = vec![pre.to_string()];
+            // last place +1 / -1 (no carry handling needed beyond saturating at 9 / 0)
+            let mut b = pre.as_bytes().to_vec();
+            if b[n - 1] < b'9' {
+                b[n - 1] += 1;
+                variants.push(String::from_utf8(b.clone()).unwrap());
+                b[n - 1] -= 1;
+            }
+            if b[n - 1] > b'0' && n > 1 {
+                b[n - 1] -= 1;
+                variants.push(String::from_utf8(b.clone()).unwrap());
+            }
+            variants.push(format!("{}{}", 1 + rng.below(9), digits(rng, n - 1, false)));
+            for m in variants {
+                for dm in [-2i64, -1, 0, 1, 2] {
+                    // integer significand: m * 10^(mag + dm - (n-1))
+                    let e = mag + dm - (n as i64 - 1);
+                    v.push(format!("{m}e{e}"));
+                    v.push(format!("-{m}E{:+}", e));
+                    if n > 1 {
+                        let k = 1 + rng.below(n - 1);
+                        v.push(format!("{}.{}e{}", &m[..k], &m[k..], mag + dm - (k as i64 - 1)));
+                    }
+                }
+            }
+        }
+    }
+    // significands around 2^53 (15 to 17 digits, many above 9007199254740992) with every small
+    // exponent: where an exact-conversion fast path ends and double rounding would begin
+    for i in 0..(if thorough { 30000 } else { 4000 }) {
+        let n = 15 + rng.below(3);
+        let lead = match i % 4 {
+            0 => "9".to_string(),
+            1 => format!("90{}", rng.below(10)),
+            2 => format!("{}", 1 + rng.below(9)),
+            _ => "9007199254740".to_string(),
+        };
+        let m = format!("{}{}", lead, digits(rng, n - lead.len(), false));
+        let e = rng.below(64) as i64 - 24;
+        match rng.below(3) {
+            0 => v.push(format!("{m}e{e}")),
+            1 => {
+                let k = 1 + rng.below(n - 1);
+                v.push(format!("{}.{}", &m[..k], &m[k..]));
+            }
+            _ => {
+                let k = 1 + rng.below(n - 1);
+                v.push(format!("{}.{}e{}", &m[..k], &m[k..], e));
+            }
+        }
+        if i % 8 == 0 {
+            v.push(format!("0.{m}"));
+            v.push(format!("0.{}{m}", "0".repeat(rng.below(8))));
+        }
+    }
     // long digit runs at every 16-byte alignment of the fraction reader
     for pre in 1..=20 {
         for post in [1usize, 15, 16, 17, 31, 32, 33, 40] {
